@@ -38,11 +38,12 @@ def runner_half(c, ex, nsim, seed):
     for k in ex:
         r = vlib.run_tlc("Watermark", cfg=dict(constants=k, invariants=WM_INV, view="view"), timeout=1500)
         c.add_tlc(r, "Watermark exhaustive %s" % json.dumps(k))
-    for i, (k, unit) in enumerate([(wm_consts(MaxLen=40), 1), (wm_consts(MaxTick=5, MaxLen=40), 1000000000)]):
+    for i, (k, unit, off) in enumerate([(wm_consts(MaxLen=40), 1, 0), (wm_consts(MaxTick=5, MaxLen=40), 1000000000, 0),
+                                        (wm_consts(MaxLen=40), 1000, 1), (wm_consts(MaxTick=5, MaxLen=40), 1000000000, 6)]):
         behs, r = vlib.gen_behaviours("Watermark", k, nsim, 60, seed + i)
-        payload = dict(property="C11", seed=c.seed, config=dict(k, Mode="watermarker", Unit=unit), behaviours=behs)
+        payload = dict(property="C11", seed=c.seed, config=dict(k, Mode="watermarker", Unit=unit, Offset=off), behaviours=behs)
         res = vlib.run_harness("timers", payload)
-        c.add_harness(res, payload, "Watermarker replay %s unit=%d" % (json.dumps(k), unit))
+        c.add_harness(res, payload, "Watermarker replay %s unit=%d, model time %d = the Unix epoch" % (json.dumps(k), unit, off))
         if behs and i == 0:
             c.sample(dict(kind="Watermark behaviour replayed on wmark.Watermarker",
                           steps=" ".join("%s%s" % (s["a"], "(%s)" % s["ts"] if s["a"] == "Read" else "") for s in behs[0])))
